@@ -19,6 +19,8 @@ func main() {
 		os.Exit(core.ChildMain(os.Args[2:]))
 	case "faultchild":
 		os.Exit(checks.FaultChildMain(os.Args[2:]))
+	case "addfaultchild":
+		os.Exit(checks.AddFaultChildMain(os.Args[2:]))
 	case "run":
 		if len(os.Args) < 4 {
 			fmt.Fprintln(os.Stderr, "usage: vcheck run <ID> <tier> [--replay file]")
